@@ -9,3 +9,10 @@ pub fn utc_timestamp(secs: i64) -> Timestamp {
         _ => unreachable!("We're requesting UTC so daylight saving time isn't a factor."),
     }
 }
+
+/// Like [`utc_timestamp`], but returns `None` for a number of seconds that cannot be represented
+/// as a timestamp, instead of panicking. This is used for values read from task data, which can
+/// contain anything.
+pub(crate) fn utc_timestamp_opt(secs: i64) -> Option<Timestamp> {
+    Utc.timestamp_opt(secs, 0).single()
+}
